@@ -1,9 +1,11 @@
 package props
 
 import (
+	"bytes"
 	"errors"
 	"fmt"
 	"io"
+	"strings"
 	"testing"
 
 	hessian "github.com/vogo/gohessian"
@@ -18,12 +20,20 @@ import (
 //
 //	mode 0: error at call k only          mode 1: error at call k and every later call
 //	mode 2: short write (n = len-1, nil error) at call k only    mode 3: short from k on
+//	mode 4: nothing taken (n = 0, nil error) at call k only      mode 5: half taken (n = len/2, nil error) at call k only
 type faultWriter struct {
 	k, mode int
 	calls   int
 	bytes   int
-	flusher bool // present the destination through a type that also has Flush() error
+	flusher bool   // present the destination through a type that also has Flush() error
+	keep    bool   // record the octets accepted
+	acc     []byte // octets accepted so far (keep only)
 }
+
+const c15Modes = 6
+
+var c15ModeText = []string{"returned an error once", "returned an error from then on", "was short (n=len-1, nil error) once", "was short from then on",
+	"took nothing (n=0, nil error) once", "took half (n=len/2, nil error) once"}
 
 var errInjected = errors.New("injected write failure")
 
@@ -32,16 +42,31 @@ func (w *faultWriter) Write(p []byte) (int, error) {
 	hit := w.k > 0 && (w.calls == w.k || (w.calls > w.k && (w.mode == 1 || w.mode == 3)))
 	if !hit {
 		w.bytes += len(p)
+		if w.keep {
+			w.acc = append(w.acc, p...)
+		}
 		return len(p), nil
 	}
 	if w.mode <= 1 {
 		return 0, errInjected
 	}
 	n := len(p) - 1
+	switch w.mode {
+	case 4:
+		n = 0
+	case 5:
+		n = len(p) / 2
+		if n == len(p) {
+			n = 0
+		}
+	}
 	if n < 0 {
 		n = 0
 	}
 	w.bytes += n
+	if w.keep {
+		w.acc = append(w.acc, p[:n]...)
+	}
 	return n, nil
 }
 
@@ -101,6 +126,42 @@ func encodeVia(entry int, fw *faultWriter, v interface{}, nm map[string]string) 
 	return
 }
 
+// c15Next is written after a failed call; its encoding does not depend on what the stream carried before.
+var c15Next = []interface{}{"next", int32(7), true}
+var c15NextBytes = []byte{0x58, 0x93, 0x04, 'n', 'e', 'x', 't', 0x97, 'T'}
+
+// followUp: one encoder (entry 1) or serializer (entry 3) on one writer; the first value runs into the fault,
+// then c15Next is written with WriteObject / Write and no Reset in between.
+func followUp(entry, k, mode int, flusher bool, v interface{}, nm map[string]string) string {
+	fw := &faultWriter{k: k, mode: mode, flusher: flusher, keep: true}
+	var w io.Writer = fw
+	if flusher {
+		w = flushingFaultWriter{fw}
+	}
+	var err2 error
+	mark := 0
+	pv, st := guard(func() {
+		if entry == 1 {
+			e := hessian.NewEncoder(w, nm)
+			e.WriteObject(v)
+			mark = len(fw.acc)
+			err2 = e.WriteObject(c15Next)
+		} else {
+			s := hessian.NewSerializer(nil, nm)
+			s.WriteTo(w, v)
+			mark = len(fw.acc)
+			err2 = s.Write(c15Next)
+		}
+	})
+	if pv != nil {
+		return fmt.Sprintf("the next write on the same stream panicked: %v [%s]", pv, st)
+	}
+	if err2 == nil && !bytes.Equal(fw.acc[mark:], c15NextBytes) {
+		return fmt.Sprintf("the next write on the same stream returned nil although the writer received %s of its octets %s", hexClip(fw.acc[mark:], 24), hexClip(c15NextBytes, 24))
+	}
+	return ""
+}
+
 func TestC15(t *testing.T) {
 	r := rec.For("C15")
 	cfg := zoo.DefaultCfg()
@@ -117,6 +178,15 @@ func TestC15(t *testing.T) {
 			// a binary of several chunks: chunk headers and bodies are writes of their own
 			n := rapid.IntRange(4090, 9000).Draw(rt, "bigBinary")
 			v, shape = []interface{}{v, make([]byte, n), "tail"}, "slice:[]interface{}+binary"
+		}
+		if rapid.IntRange(0, 11).Draw(rt, "withBigLeaf") == 0 {
+			// one leaf whose encoding is a single payload of more than 64 KiB
+			n := rapid.IntRange(65536, 70000).Draw(rt, "bigLeaf")
+			if rapid.Bool().Draw(rt, "bigLeafIsString") {
+				v, shape = []interface{}{v, strings.Repeat("a", n), "tail"}, "slice:[]interface{}+string>64KiB"
+			} else {
+				v, shape = []interface{}{v, make([]byte, n), "tail"}, "slice:[]interface{}+binary>64KiB"
+			}
 		}
 		_, nm := hessian.ExtractTypeNameMap(v)
 		desc := zoo.Describe(v, 400)
@@ -138,7 +208,7 @@ func TestC15(t *testing.T) {
 		r.Current(fmt.Sprintf("C15 %s %s W=%d %s", shape, c15Entry[entry], W, desc))
 		h := av.Hash(shape + desc)
 		for k := 1; k <= W; k++ {
-			for mode := 0; mode < 4; mode++ {
+			for mode := 0; mode < c15Modes; mode++ {
 				w := &faultWriter{k: k, mode: mode, flusher: flusher}
 				err, pv, st := encodeVia(entry, w, v, copyNames(nm))
 				r.Eval()
@@ -153,15 +223,30 @@ func TestC15(t *testing.T) {
 				if err == nil {
 					c.set("k", k)
 					c.set("mode", mode)
-					failf(rt, c, "C15 %s via %s: Write call %d of %d %s, yet the encode call returned nil\n value: %s", shape, c15Entry[entry], k, W,
-						[]string{"returned an error once", "returned an error from then on", "was short (n=len-1, nil error) once", "was short from then on"}[mode], desc)
+					failf(rt, c, "C15 %s via %s: Write call %d of %d %s, yet the encode call returned nil\n value: %s", shape, c15Entry[entry], k, W, c15ModeText[mode], desc)
+				}
+				// the next value on the same stream, without a Reset (the documented continuous-write use): the call
+				// fails, or every octet of that value reached the writer
+				if entry == 1 || entry == 3 {
+					if msg := followUp(entry, k, mode, flusher, v, copyNames(nm)); msg != "" {
+						c.set("k", k)
+						c.set("mode", mode)
+						failf(rt, c, "C15 %s via %s: Write call %d of %d %s (reported), then %s\n value: %s", shape, c15Entry[entry], k, W, c15ModeText[mode], msg, desc)
+					}
+					r.Eval()
 				}
 			}
 		}
 		r.Label("entry:" + c15Entry[entry])
 		r.Label(fmt.Sprintf("writes:%s", bucket(W)))
+		if strings.Contains(shape, "KiB") {
+			r.Label("one leaf of more than 64 KiB")
+		}
+		if entry == 1 || entry == 3 {
+			r.Label("followed by a further write on the same stream")
+		}
 		r.Sample(func() interface{} {
-			return map[string]interface{}{"shape": shape, "entry": c15Entry[entry], "write_calls": W, "faulted_runs": 4 * W, "value": zoo.Describe(v, 200)}
+			return map[string]interface{}{"shape": shape, "entry": c15Entry[entry], "write_calls": W, "faulted_runs": c15Modes * W, "value": zoo.Describe(v, 200)}
 		})
 	})
 }
